@@ -25,6 +25,8 @@ META = {
 
 META['explanation'] += ' ' + 'R6: explicit rejections against the reviewed table. R7: TXT character-strings (tabulated). R8: RRSIG timestamps and DNSKEY flags through the shared primitives (tabulated). R9: fixed length integers exact for every bit length, refusal instead of truncation. R5 also tabulates the RSA modulus width for moduli that are exact powers of two, with the key size modelled as the dependency computes it. R10: a parser whose consumed length is not reported tests that nothing is left unread. Spec items name the attribute they carry.'
 META['explanation'] += ' ' + 'R11: DSA key fields (T and one common width of 64 + 8T octets) as a parse-compose-parse pipeline over primes shorter than their field; ts items of the specification carry whether all-ones means no limit.'
+
+META['explanation'] += ' ' + 'R12: DNSKEY records evaluated per algorithm (RSA, DSA incl. a prime just above a power of two, ECDSA / GOST with leading zero octets, EdDSA). R13: the length demanded up front against the shortest RDATA of the specification (min_rdata in sa/specs/dns.json).'
 MODULES = {'cryptoparser.dnsrec.record'}
 HERE = os.path.dirname(os.path.dirname(os.path.abspath(__file__)))
 
